@@ -1,6 +1,7 @@
 """C08 - a handle is non-null exactly when it holds the lock, and releases it once."""
 from vlib import engine
 from vlib.engine import ModelRun
+from checks.deferred_common import DeferredBase
 from checks.guarded_common import GuardedBase, P, X, XT, S, ST, LS, conf
 
 
@@ -34,5 +35,17 @@ class C08(GuardedBase):
 DEF = C08()
 
 
+class C08Deferred(DeferredBase):
+    pid = 'C08'
+    tags = ('C08',)
+    conf_limit = {'quick': 800, 'thorough': 20000}
+    models = {'quick': [DeferredBase.models['quick'][0]], 'thorough': DeferredBase.models['thorough'][:2]}
+    programs = {'quick': DeferredBase.programs['quick'][:2] + DeferredBase.programs['quick'][3:],
+                'thorough': DeferredBase.programs['thorough'][:2] + DeferredBase.programs['thorough'][3:6]}
+
+
+DEF2 = C08Deferred()
+
+
 def run(tier, seed):
-    return engine.run_check(DEF, tier, seed)
+    return engine.run_parts('C08', [DEF, DEF2], tier, seed)
